@@ -338,3 +338,5 @@ func init() {
 	kinds["valhdr"] = kValHdr
 	gens["C17"] = genC17
 }
+
+func parseTime(v string) (time.Time, error) { return time.Parse(time.RFC3339, v) }
